@@ -49,16 +49,19 @@ def check_many_to_one(ns, C, viol, res=None, only=None):
         for asy in (False, True):
             if only and (shape, asy) != only:
                 continue
-            rw = RecWorld()
-            util.connect_many_to_one(rw, mk(), d, "a", ("b", "c"), async_requests=asy)
-            C["calls_many_to_one"] += 1
-            C["many_to_one_src_" + shape] += 1
-            if res is not None:
-                res["evaluations"] += 1
-            if [c[0] for c in rw.calls] != src or any(c[1] is not d for c in rw.calls) or \
-                    any(c[2] != ("a", ("b", "c")) for c in rw.calls) or \
-                    any(c[3].get("async_requests", False) != asy for c in rw.calls):
-                viol("many_to_one_wrong", case={"n_src": ns, "src_set": shape, "async_requests": asy})
+            for attrs in (("a", ("b", "c")), ("a",), ()):
+                rw = RecWorld()
+                util.connect_many_to_one(rw, mk(), d, *attrs, async_requests=asy)
+                C["calls_many_to_one"] += 1
+                C["many_to_one_src_" + shape] += 1
+                C["many_to_one_attr_pairs_%d" % len(attrs)] += 1
+                if res is not None:
+                    res["evaluations"] += 1
+                if [c[0] for c in rw.calls] != src or any(c[1] is not d for c in rw.calls) or \
+                        any(c[2] != attrs for c in rw.calls) or \
+                        any(c[3].get("async_requests", False) != asy for c in rw.calls):
+                    viol("many_to_one_wrong", case={"n_src": ns, "src_set": shape, "async_requests": asy,
+                                                    "attrs": list(map(str, attrs))})
 
 
 def check_case(ns, nd, evenly, maxc, rseed, C, viol):
@@ -75,7 +78,10 @@ def check_case(ns, nd, evenly, maxc, rseed, C, viol):
         # sequences of either kind (the destination set is copied before it is shuffled)
         src_arg = tuple(src) if rseed & 4 else list(src)
         dest_arg = tuple(dest) if rseed & 8 else list(dest)
-        ret = util.connect_randomly(w, src_arg, dest_arg, "a", ("b", "c"), **kw)
+        # with two attribute pairs, with one, or with none (a relation only)
+        attrs = (("a", ("b", "c")), ("a",), ())[(rseed >> 4) % 3]
+        case["attrs"] = list(map(str, attrs))
+        ret = util.connect_randomly(w, src_arg, dest_arg, *attrs, **kw)
     except Exception as e:  # noqa: BLE001
         viol("exception_on_admissible_input", case=case, error=f"{type(e).__name__}: {e}",
              connects_before_error=len(w.calls))
@@ -90,8 +96,14 @@ def check_case(ns, nd, evenly, maxc, rseed, C, viol):
              missing=[repr(s) for s in src if s not in per_src])
     if any(c[1] not in dest for c in w.calls):
         viol("connected_to_foreign_destination", case=case)
-    if any(c[2] != ("a", ("b", "c")) for c in w.calls):
+    if any(c[2] != attrs for c in w.calls):
         viol("attributes_not_passed_through", case=case)
+    # "the destination set" is the caller's own object: after the call every connected and every returned entity
+    # is (still) a member of it, and the sources are the caller's sources
+    if any(c[1] not in dest_arg for c in w.calls) or any(d not in dest_arg for d in ret) or \
+            list(src_arg) != src:
+        viol("connected_or_returned_entity_not_in_callers_destination_set_after_the_call", case=case,
+             destination_set_after_call=[repr(d) for d in dest_arg])
     counts = [per_dest.get(d, 0) for d in dest]
     if evenly and max(counts) - min(counts) > 1:
         viol("not_even", case=case, counts=counts)
@@ -176,7 +188,8 @@ def evidence(m, tier, seed):
         "rule": "all (|src| <= max_src, 1 <= |dest| <= max_dest, evenly, max_connects in {inf,1,2,3,4}; evenly=True also with a finite max_connects, which is documented as ignored) with "
                 "|src| <= |dest|*max_connects x random seeds, on a recording world; distinct_nontrivial = distinct "
                 "(sizes, mode, cap, seed) with at least two sources and two destinations; connect_many_to_one with the "
-                "source set as list / tuple / iterator / itertools.chain / generator / filter object / dict keys, async_requests on and off",
+                "source set as list / tuple / iterator / itertools.chain / generator / filter object / dict keys, async_requests on and off; "
+                "two, one or no attribute pairs; membership in the caller's own destination list judged after the call as well",
         "exhaustive": False,
         "obligations": m["counters"].get("connect_calls_recorded", 0),
     }, "assumptions": ["the random module's global state is seeded per case"]}
